@@ -183,7 +183,7 @@ def check_line(s, render=None):
     if s.endswith("\n") and ref[0] != "blank" and not (L.endswith("\n") and L.count("\n") == 1):
         bad["ensures.terminated_line_stays_terminated"] = f"ItpLine({s!r}).line = {L!r} is not one terminated line"
     if not (L2.split() == L.split() and L3.split() == L2.split()):
-        bad["ensures.idempotent_from_second_round"] = f"rounds {L!r} -> {L2!r} -> {L3!r} differ at token level"
+        bad["ensures.idempotent_from_second_round"] = f"ItpLine({s!r}): rounds {L!r} -> {L2!r} -> {L3!r} differ at token level"
     return bad
 
 
@@ -343,7 +343,9 @@ def observe(itp):
             if toks:
                 recs.append(("content", toks, cm))
             elif cm:
-                recs.append(("pp", cm) if cm.startswith("#") else ("comment", cm))
+                # ItpLine has no public "kind": a line without content is a preprocessor line
+                # when the object renders (str) as one, otherwise a comment line
+                recs.append(("pp", cm) if ref_line(str(l))[0] == "pp" else ("comment", cm))
         obs["sections"][name] = recs
         obs["content"][name] = [l.content.split() for l in sec]
     return obs
@@ -406,7 +408,7 @@ def _write(path, text):
         f.write(text)
 
 
-def check_file(text, tmp, corrupt=None, src_path=None, topology=True):
+def check_file(text, tmp, corrupt=None, src_path=None, topology=True, corrupt3=None):
     """ItpFile(f1).write(f2); ItpFile(f2) against the reference reading of `text`; second write; read_topology.
     Returns ({clause: message}, {clause: evaluated?})"""
     m = _itp()
@@ -434,6 +436,8 @@ def check_file(text, tmp, corrupt=None, src_path=None, topology=True):
             stage = "ItpFile(f2).write(f3)"
             itp2.write(f3)
             del itp2
+            if corrupt3 is not None:
+                _write(f3, corrupt3(_read(f3)))
             stage = "ItpFile(f3)"
             obs3 = observe(m.ItpFile(f3))
             t2, t3 = _read(f2), _read(f3)
@@ -535,6 +539,10 @@ def enum_seqs(nk, maxlen, first):
             yield (first,) + rest
 
 
+def _slice_name(firsts):
+    return "|".join(KINDS[k] for k in firsts)
+
+
 def variants(family, tier, maxlen, n):
     v = [("none", True), ("header-text", True), ("none", False)]
     if family == "typed":
@@ -542,13 +550,13 @@ def variants(family, tier, maxlen, n):
     return v
 
 
-def task_files(family, first, maxlen, tier, seed, only_plain=False):
+def task_files(family, firsts, maxlen, tier, seed, only_plain=False):
     names = FAMILIES[family]
     tmp = _mkdtemp()
     t0 = time.time()
     agg = Agg(F_CLAUSES)
     try:
-        for seq in enum_seqs(len(KINDS), maxlen, first):
+        for seq in sorted((s for first in firsts for s in enum_seqs(len(KINDS), maxlen, first)), key=len):
             vs = [("none", True)] if only_plain else variants(family, tier, maxlen, len(seq))
             for prefix, nl in vs:
                 text = render_file(names, prefix, seq, nl)
@@ -556,7 +564,7 @@ def task_files(family, first, maxlen, tier, seed, only_plain=False):
                 agg.add(text, bad, done, {"level": "file", "text": text, "family": family, "signature": text_signature(text)})
     finally:
         shutil.rmtree(tmp, ignore_errors=True)
-    return agg.obligations(f"{family}/lines<={maxlen}/first={KINDS[first]}", time.time() - t0)
+    return agg.obligations(f"{family}/lines<={maxlen}/first={_slice_name(firsts)}", time.time() - t0)
 
 
 def task_files_hash(maxlen, seed):
@@ -618,6 +626,7 @@ def task_shipped(seed):
 GUARD_FILES = [
     "; title\n[ dihedrals ]\n1 2 3 1 ; first\n; remark\n[ angles ]\n1 2 3 1\n[ dihedrals ]\n2 3 4 1\n",
     "#include \"ff.itp\"\n[ bonds ]\n1 2 ;\n2 1 1 0.5 ; note ; more\n#ifdef X\n; remark\n",
+    "[ moleculetype ]\nMOL 3\n[ atoms ]\n1 C 1 RES C1 1 0.0 12.0\n2 C 1 RES C2 2 0.0 12.0\n[ bonds ]\n1 2 1 0.1 ; b\n",
 ]
 
 
@@ -625,6 +634,14 @@ def _drop_first_content(t):
     lines = t.splitlines(True)
     for i, l in enumerate(lines):
         if not is_header(l) and ref_line(l)[0] == "content" and any(is_header(x) for x in lines[:i]):
+            return "".join(lines[:i] + lines[i + 1:])
+    return t
+
+
+def _drop_last_content(t):
+    lines = t.splitlines(True)
+    for i in range(len(lines) - 1, -1, -1):
+        if not is_header(lines[i]) and ref_line(lines[i])[0] == "content":
             return "".join(lines[:i] + lines[i + 1:])
     return t
 
@@ -690,6 +707,12 @@ def task_guards(seed):
                 bad, _ = check_file(text, tmp, corrupt=fn)
                 n += clause in bad
             g(f"{F_FILE}/guard.must-fail.{cname}", n > 0, sample={"clause": clause, "files_refuted": n})
+        n = sum("ensures.read_topology_equal" in check_file(text, tmp, corrupt=_drop_last_content)[0] for text in GUARD_FILES)
+        g(f"{F_FILE}/guard.must-fail.written-topology-lacks-last-bond", n > 0,
+          sample={"clause": "ensures.read_topology_equal", "files_refuted": n})
+        n = sum("ensures.second_write_stable" in check_file(text, tmp, corrupt3=_drop_last_content)[0] for text in GUARD_FILES)
+        g(f"{F_FILE}/guard.must-fail.second-write-lacks-a-content-line", n > 0,
+          sample={"clause": "ensures.second_write_stable", "files_refuted": n})
     finally:
         shutil.rmtree(tmp, ignore_errors=True)
     # cover guards: the enumerated scope contains the situations the statement names
@@ -739,12 +762,13 @@ def tasks(prop, tier, seed):
     t.append(("guards", task_guards, (seed,), 300.0))
     t.append(("file/hash-comment", task_files_hash, (3 if quick else 4, seed), 300.0))
     n_file = 4 if quick else 5
+    slices = [(k, k + 1) for k in range(0, len(KINDS), 2)] if quick else [(k,) for k in range(len(KINDS))]
     for fam in FAMILIES:
-        for first in range(len(KINDS)):
-            t.append((f"file/{fam}/first={KINDS[first]}", task_files, (fam, first, n_file, tier, seed), 600.0 if quick else 1800.0))
+        for sl in slices:
+            t.append((f"file/{fam}/first={_slice_name(sl)}", task_files, (fam, sl, n_file, tier, seed), 600.0 if quick else 1800.0))
     if not quick:
-        for first in range(len(KINDS)):
-            t.append((f"file6/generic/first={KINDS[first]}", task_files, ("generic", first, 6, tier, seed, True), 1800.0))
+        for sl in slices:
+            t.append((f"file6/generic/first={_slice_name(sl)}", task_files, ("generic", sl, 6, tier, seed, True), 1800.0))
     return t
 
 
